@@ -2,7 +2,8 @@
 """Binding demonstration without touching the sources: for EVERY kind of event of a good recorded execution one
 recorded field is altered; Trace_Geometry must leave each altered line unexplained (class "new" = VIOLATION) while
 it explains the original lines.
-usage: selftest/C01/corrupt_trace.py [trace.ndjson ...]   (default: .build/work/C01/small.ndjson db.ndjson after bin/check C01)"""
+usage: selftest/C01/corrupt_trace.py [trace.ndjson ...]   (default: .build/work/C01/small.ndjson db.ndjson after bin/check C01)
+SAVE=1 additionally writes the selected original lines and the altered lines to selftest/C01/good_events.ndjson / corrupt_events.ndjson."""
 import copy, json, os, sys, tempfile
 sys.path.insert(0, os.path.join(os.path.dirname(os.path.abspath(__file__)), "..", ".."))
 from checks import lib
@@ -129,6 +130,14 @@ def main():
             trace += copy.deepcopy(ctx) + [c]
             where.append((kind + ("" if table is CORRUPT else " (2nd field)"), len(trace)))
     bad = validate(trace)
+    if os.environ.get("SAVE"):
+        # small replay files: `bin/check C01 --replay selftest/C01/good_events.ndjson` passes, `... corrupt_events.ndjson` reports VIOLATION
+        here = os.path.dirname(os.path.abspath(__file__))
+        goodsel = []
+        for kind, (ctx, r) in sorted(chosen.items()):
+            goodsel += ctx + [r]
+        lib.write_ndjson(os.path.join(here, "good_events.ndjson"), goodsel)
+        lib.write_ndjson(os.path.join(here, "corrupt_events.ndjson"), trace)
     failed = 0
     for (kind, i) in where:
         verdict = bad.get(i)
